@@ -67,10 +67,12 @@ struct Cx<'tcx> {
     tcx: TyCtxt<'tcx>,
     krate: String,
     sizes: std::cell::RefCell<std::collections::BTreeMap<String, u64>>,
+    // concrete instantiations of local generic functions met at call sites: (callee, generic arguments, name of the copy)
+    mono: std::cell::RefCell<Vec<(DefId, ty::GenericArgsRef<'tcx>, String)>>,
 }
 
 fn dump_crate<'tcx>(tcx: TyCtxt<'tcx>, name: &str) -> J {
-    let cx = Cx { tcx, krate: name.to_string(), sizes: Default::default() };
+    let cx = Cx { tcx, krate: name.to_string(), sizes: Default::default(), mono: Default::default() };
     let mut adts = vec![];
     let mut statics = vec![];
     let mut consts = vec![];
@@ -109,6 +111,33 @@ fn dump_crate<'tcx>(tcx: TyCtxt<'tcx>, name: &str) -> J {
                 fns.push(cx.dump_body(ldid, body, "StaticInit", None));
             }
             _ => {}
+        }
+    }
+
+    // monomorphic copies of local generic functions, one per concrete instantiation used at a call site (the generic
+    // body cannot name what `F: FnMut` or `I: IntoIterator` stand for; the copy can).  Copies may call further ones.
+    let mut mi = 0;
+    while mi < cx.mono.borrow().len() && mi < 64 {
+        let (d, a, nm) = cx.mono.borrow()[mi].clone();
+        mi += 1;
+        if let Some(ld) = d.as_local() {
+            let body = tcx.optimized_mir(d);
+            let inst = ty::Instance::new_raw(d, a);
+            let b2 = inst.instantiate_mir_and_normalize_erasing_regions(
+                tcx,
+                ty::TypingEnv::fully_monomorphized(),
+                ty::EarlyBinder::bind(body.clone()),
+            );
+            let mut j = cx.dump_body(ld, &b2, "Fn", None);
+            if let J::Obj(ref mut v) = j {
+                for (k, val) in v.iter_mut() {
+                    if k == "path" {
+                        *val = J::s(nm.clone());
+                    }
+                }
+                v.push(("mono_of".to_string(), J::s(cx.path(d))));
+            }
+            fns.push(j);
         }
     }
 
@@ -598,6 +627,26 @@ impl<'tcx> Cx<'tcx> {
                 v.push(("resolved_inst", J::s(tcx.def_path_str_with_args(rd, inst.args))));
                 v.push(("resolved_local", J::Bool(rd.is_local())));
                 v.push(("resolved_kind", J::s(format!("{:?}", inst.def).split(['(', ' ', '{']).next().unwrap_or("").to_string())));
+                use rustc_middle::ty::TypeVisitableExt;
+                if rd.is_local()
+                    && matches!(inst.def, ty::InstanceKind::Item(_))
+                    && matches!(tcx.def_kind(rd), DefKind::Fn | DefKind::AssocFn)
+                    && inst.args.non_erasable_generics().next().is_some()
+                    && !inst.args.has_non_region_param()
+                {
+                    let key = tcx.def_path_str_with_args(rd, inst.args);
+                    let mut m = self.mono.borrow_mut();
+                    let found = m.iter().position(|(d, a, _)| *d == rd && tcx.def_path_str_with_args(*d, *a) == key);
+                    let idx = match found {
+                        Some(i) => i,
+                        None => {
+                            let i = m.len();
+                            m.push((rd, inst.args, format!("{}::{{mono#{}}}", self.path(rd), i)));
+                            i
+                        }
+                    };
+                    v.push(("mono", J::s(m[idx].2.clone())));
+                }
             }
         }
         J::obj(v)
